@@ -33,18 +33,21 @@ theorem escape_append (a b : Str) : escape (a ++ b) = escape a ++ escape b := by
   simp [escape]
 
 theorem unescape_cons_ne (c : Char) (r : Str) (h : c ≠ '&') :
-    unescape (c :: r) = (unescape r).map (c :: ·) :=
-  unescape.eq_8 c r (fun _ hc _ => h hc) (fun _ hc _ => h hc) (fun _ hc _ => h hc) (fun _ hc _ => h hc)
-    (fun _ hc _ => h hc) (fun hc => h hc)
+    unescape (c :: r) = (unescape r).map (c :: ·) := by
+  simp only [unescape]
+  rw [unescapeFrom.eq_def]
+  split <;> simp_all
+
+theorem unescape_nil : unescape [] = some [] := rfl
 
 theorem unescape_escChar (c : Char) (r : Str) :
     unescape (escChar c ++ r) = (unescape r).map (c :: ·) := by
   rcases escChar_cases c with ⟨h, e⟩ | ⟨h, e⟩ | ⟨h, e⟩ | ⟨h, e⟩ | ⟨h, e⟩ | ⟨h, e⟩
-  · subst h; rw [e]; simp [unescape]
-  · subst h; rw [e]; simp [unescape]
-  · subst h; rw [e]; simp [unescape]
-  · subst h; rw [e]; simp [unescape]
-  · subst h; rw [e]; simp [unescape]
+  · subst h; rw [e]; simp [unescape, unescapeFrom]
+  · subst h; rw [e]; simp [unescape, unescapeFrom]
+  · subst h; rw [e]; simp [unescape, unescapeFrom]
+  · subst h; rw [e]; simp [unescape, unescapeFrom]
+  · subst h; rw [e]; simp [unescape, unescapeFrom]
   · rw [e]
     have : c ≠ '&' := by
       intro hc; subst hc; simp [isSpecial] at h
@@ -61,11 +64,11 @@ theorem unescape_escape_append (s r : Str) :
 
 theorem unescape_escape (s : Str) : unescape (escape s) = some s := by
   have := unescape_escape_append s []
-  simpa [unescape] using this
+  simpa [unescape_nil] using this
 
 theorem unescape_plain (s : Str) (h : ∀ c ∈ s, c ≠ '&') : unescape s = some s := by
   induction s with
-  | nil => simp [unescape]
+  | nil => rfl
   | cons c s ih =>
     rw [unescape_cons_ne c s (h c (by simp)), ih (fun d hd => h d (by simp [hd]))]
     rfl
